@@ -206,8 +206,8 @@ func otherKeys(kp keyPair) []crypto.PublicKey {
 }
 
 func TestC02_Splices(t *testing.T) {
-	st := NewStats("C02", "TestC02_Splices", "rapid: two signed tokens (same or different key / algorithm / claims); splice protected, payload or signature content between them; replace the signature by zeros, random bytes, the other token's signature, right-length wrong bytes; 1..8 random byte edits; protected header / payload re-encoded into different but equivalent bytes (non-preferred widths, long or indefinite map head, permuted keys) under the original signature; correctly signed envelopes that carry the algorithm only in the unprotected header or nowhere, a nil payload, an empty signature; verification with every other key (same type, other types, nil, non-keys). Oracle: independent splitter decides whether covered bytes changed; wrong key never verifies; alg-less/payload-less/signature-less never verify. Non-trivial = the altered token decodes; distinct = (alg, mutation kind, details)")
-	st.Require = []string{"splice-payload", "splice-protected", "splice-signature", "sig-zero", "sig-random", "byte-edits", "alg-unprotected-only", "alg-nowhere", "nil-payload", "empty-signature", "wrong-key", "decoded-verify-failed", "equiv-protected", "equiv-payload"}
+	st := NewStats("C02", "TestC02_Splices", "rapid: two signed tokens (same or different key / algorithm / claims); splice protected, payload or signature content between them; replace the signature by zeros, random bytes, the other token's signature, right-length wrong bytes; 1..8 random byte edits; protected header / payload re-encoded into different but equivalent bytes (non-preferred widths, long or indefinite map head, permuted keys) under the original signature; bytes appended to / cut from the payload or protected-header content with the length prefix adjusted; correctly signed envelopes that carry the algorithm only in the unprotected header or nowhere, a nil payload, an empty signature; verification with every other key (same type, other types, nil, non-keys). Oracle: independent splitter decides whether covered bytes changed; wrong key never verifies; alg-less/payload-less/signature-less never verify. Non-trivial = the altered token decodes; distinct = (alg, mutation kind, details)")
+	st.Require = []string{"splice-payload", "splice-protected", "splice-signature", "sig-zero", "sig-random", "byte-edits", "alg-unprotected-only", "alg-nowhere", "nil-payload", "empty-signature", "wrong-key", "decoded-verify-failed", "equiv-protected", "equiv-payload", "extend-payload", "extend-protected"}
 	defer st.Flush(t)
 	rapid.Check(t, func(t *rapid.T) {
 		algA := rapid.SampledFrom([]int64{icose.EdDSA, icose.EdDSA, icose.ES256, icose.ES256, icose.PS256, icose.ES384, icose.ES512, icose.PS384, icose.PS512}).Draw(t, "algA")
@@ -217,7 +217,7 @@ func TestC02_Splices(t *testing.T) {
 		if err != nil {
 			t.Fatalf("cannot sign: %v", err)
 		}
-		kind := rapid.SampledFrom([]string{"splice-payload", "splice-protected", "splice-signature", "sig-zero", "sig-random", "sig-flip", "byte-edits", "alg-unprotected-only", "alg-nowhere", "nil-payload", "empty-signature", "wrong-key", "reencode", "equiv-protected", "equiv-protected", "equiv-payload"}).Draw(t, "kind")
+		kind := rapid.SampledFrom([]string{"splice-payload", "splice-protected", "splice-signature", "sig-zero", "sig-random", "sig-flip", "byte-edits", "alg-unprotected-only", "alg-nowhere", "nil-payload", "empty-signature", "wrong-key", "reencode", "equiv-protected", "equiv-protected", "equiv-payload", "extend-payload", "extend-payload", "extend-protected", "shrink-payload"}).Draw(t, "kind")
 		var mut []byte
 		detail := ""
 		rebuild := func(prot, pay, sig []byte) []byte {
@@ -320,6 +320,30 @@ func TestC02_Splices(t *testing.T) {
 				mut = rebuild(a.Parts.Protected, enc, a.Parts.Signature)
 			}
 			detail = how
+		case "extend-payload", "extend-protected", "shrink-payload":
+			// bytes appended to (or cut from) the content of the payload /
+			// protected byte string, its length prefix adjusted, under the
+			// original signature
+			src := a.Parts.Payload
+			if kind == "extend-protected" {
+				src = a.Parts.Protected
+			}
+			var alt []byte
+			if kind == "shrink-payload" {
+				alt = append([]byte{}, src[:len(src)-rapid.IntRange(1, 3).Draw(t, "cut")]...)
+			} else {
+				suffix := rapid.SampledFrom([][]byte{{0x00}, {0xf6}, {0xff}, {0xa0}, {0xa1, 0x00, 0x00}, {0x61}, {0x58, 0x20}, {0x40, 0x40}}).Draw(t, "suffix")
+				if genBool.Draw(t, "suffix.self") {
+					suffix = src // a second copy of the item
+				}
+				alt = append(append([]byte{}, src...), suffix...)
+				detail = fmt.Sprintf("+%x", suffix[:min(len(suffix), 6)])
+			}
+			if kind == "extend-protected" {
+				mut = rebuild(alt, a.Parts.Payload, a.Parts.Signature)
+			} else {
+				mut = rebuild(a.Parts.Protected, alt, a.Parts.Signature)
+			}
 		case "reencode":
 			// same covered bytes, different outer encoding: no verdict, but
 			// exercises the "covered-bytes-unchanged" path of the oracle
